@@ -171,3 +171,16 @@ Proof.
   all: eexists; exists tags; split; [reflexivity|split; [exact Etags|]].
   all: intros o Ho; unfold rec_of; rewrite fold_extra_aud; erewrite fold_set_sets; [reflexivity|exact Ho].
 Qed.
+
+(* --- the zip semantics of the reference evaluator: round k takes the k-th item of every column --- *)
+Lemma transpose_nth {A} (d : A) n : forall cols k, k < n ->
+  nth k (transpose_n d n cols) [] = map (fun col => nth k col d) cols.
+Proof.
+  induction n as [|n IH]; intros cols k Hk; [lia|]. cbn [transpose_n].
+  destruct k as [|k].
+  - cbn [nth]. apply map_ext. intros col. destruct col; reflexivity.
+  - cbn [nth]. rewrite IH by lia. rewrite map_map. apply map_ext. intros col. destruct col; [destruct k; reflexivity|reflexivity].
+Qed.
+
+Lemma transpose_length {A} (d : A) n cols : length (transpose_n d n cols) = n.
+Proof. revert cols. induction n as [|n IH]; intros cols; simpl; auto. Qed.
